@@ -12,7 +12,7 @@ import registry  # noqa
 ids = [json.loads(l)['id'] for l in open(os.path.join(VERIF, 'properties.jsonl'))]
 checks = []
 for pid in ids:
-    if pid not in propinfo.PROPS:
+    if pid not in propinfo.PROPS or pid not in propinfo.CLAIMED:
         continue
     if not any(pid in h.props for h in registry.HARNESSES):
         continue
